@@ -61,6 +61,10 @@ class Domain:
     def store_value(self, it, obj, v, ev, st, d):
         return d
 
+    def on_aug(self, it, op, cur, rhs, res, st):
+        """augmented assignment on an immutable local / attribute (x += e)."""
+        res.dom.pop(self.name, None)
+
     def on_expr(self, it, node, v, st):
         raise NotImplementedError
 
@@ -83,6 +87,24 @@ class Lin(Domain):
         for k, c in b.items():
             out[k] = "N" if (out.get(k, c) != c or c == "N") else c
         return out
+
+    def on_aug(self, it, op, cur, rhs, res, st):
+        a, b = cur.dom.get(self.name, {}), rhs.dom.get(self.name, {})
+        if op in ("+=", "-="):
+            d = self.join(a, b)
+        elif op in ("*=", "/=") and not b and self.pure(rhs):
+            d = dict(a)
+        elif op == "*=" and not a and self.pure(cur):
+            d = dict(b)
+        else:
+            d = self.all_n(res, a, b)
+        for k in res.dep:
+            if k.startswith(("in:", "out:")) and k not in d:
+                d[k] = "N"
+        if d:
+            res.dom[self.name] = d
+        else:
+            res.dom.pop(self.name, None)
 
     def all_n(self, v, *ds):
         out = {}
